@@ -462,15 +462,17 @@ def _run_job_once(job, workroot, keep=False):
         target = b_gb
     if job.unwind:
         rc, sl, _ = _run(['goto-instrument', '--show-loops', target], wd, 120, res.cmds)
-        names = []
+        bounds = {}
         for m in re.finditer(r'^Loop (\S+)\.(\d+):\n\s+file (\S+) line (\d+) function (\S+)', sl, re.M):
+            key = '%s.%s' % (m.group(1), m.group(2))
+            # '*repo*': every loop whose code comes from the repository (library or example), wherever it lives now;
+            # a bound given for a specific function overrides it
+            if '*repo*' in job.unwind and (m.group(3).startswith(REPO + '/') or '/examples/' in m.group(3) or '/src/avtp/' in m.group(3)):
+                bounds[key] = job.unwind['*repo*']
             for fn, bound in job.unwind.items():
-                if fn == '*repo*':
-                    # every loop whose code comes from the repository (library or example), wherever it lives now
-                    if m.group(3).startswith(REPO + '/') or '/examples/' in m.group(3) or '/src/avtp/' in m.group(3):
-                        names.append('%s.%s:%d' % (m.group(1), m.group(2), bound))
-                elif m.group(1) == fn or m.group(1).startswith(fn + '_wrapped') or m.group(5) == fn:
-                    names.append('%s.%s:%d' % (m.group(1), m.group(2), bound))
+                if fn != '*repo*' and (m.group(1) == fn or m.group(1).startswith(fn + '_wrapped') or m.group(5) == fn):
+                    bounds[key] = bound
+        names = ['%s:%d' % (k, v) for k, v in bounds.items()]
         if not names:
             res.reason = 'bounded stand-in: loops of %s not found in the instrumented binary' % list(job.unwind)
             res.wall = time.time() - t0
